@@ -402,3 +402,9 @@ def run(F, R, tier):
     # ------------------------------------------------------------------ R5 verification side used by the round trip (shared with C03-R6)
     r5 = R.rule("C08-R5", "T2+T3+T6", "CoreDocument::verify_jws resolves kid within the configured scope and requires full nonce equality (a token never verifies under a different nonce or an excluding scope)")
     c03.verify_jws_rules(F, r5)
+
+    # ------------------------------------------------------------------ R6 general serialization: one payload encoding for all recipients
+    r6 = R.rule("C08-R6", "T2", "every recipient of a general-serialization JWS shares the effective b64 of the first one (C11-R5), otherwise a later signature is "
+                "computed over an encoding of the payload the decoder will not reproduce")
+    L.depends_on(r6, F, tier, ["C11-R5"], "all recipients of one general JWS agree on b64")
+    r6.floor(1)
